@@ -101,6 +101,16 @@ def gen_join_scenario(rng, variant, tier, style=None, stop=False):
     if stop and v1:
         horizon = sum(d for d, _ in prod) + close_after
         stop_at = rng.randrange(0, max(horizon, 2) + Tm) // 2 * 2 + 7    # an instant that is neither a tick nor a put
+        if stop == "unreleased" and ivl is not None:
+            # no-copy mode, a consumer that keeps the first slice without releasing it, a producer that goes on writing, Stop()
+            # while the release is awaited: the delivered slice must never be touched again
+            nocopy = True
+            icap = rng.choice([J, 2 * J])
+            n = max(n, 2 * J + 2)
+            prod = [(1, 1)] + [(rng.choice([0, 0, 2 * unit]), 1) for _ in range(n - 1)]
+            first_out = sum(d for d, _ in prod[:J])
+            cons = [(first_out + 50 * Tm, 0)]
+            stop_at = (first_out + rng.choice([2, 6, 20]) * unit) // 2 * 2 + 7
     enc = enc_join(variant, J, nocopy, T, inacc, icap, close_after, stop_at, prod, cons, capextra=capextra)
     meta = {"variant": ["join-v2", "unite-v2", "join-v1"][variant], "J": J, "nocopy": nocopy, "T": T, "inaccuracy": inacc,
             "interval": ivl, "divider": div, "icap": icap, "close_after": close_after, "prod": prod, "cons": cons, "style": style, "capextra": capextra, "stop_at": stop_at}
@@ -551,7 +561,7 @@ def join_stop_variants(sc):
 def join_stop_generate():
     def generate(rng, tier):
         n = 100 if tier == "quick" else 3000
-        return [gen_join_scenario(rng, 2, tier, stop=True) for _ in range(n)]
+        return [gen_join_scenario(rng, 2, tier, stop=("unreleased" if i % 3 == 0 else True)) for i in range(n)]
     return generate
 
 
